@@ -408,8 +408,16 @@ for adj in row_it: graph.get_successor_nodes_by_index(&v)
 //@ before #1 push_fringe_node(&mut count, &mut fringe, u, vu_dist);
                 // machine arithmetic treated as mathematical: the push counter is an i32 that would need > 2^31 heap pushes to overflow
                 assume(count < i32::MAX);
+//@ if main
+                // [C20.settled_once.no_item_at_max] a queued candidate is never f64::MAX (stated before the push, where the context is small)
+                assert(!feq(vu_dist, f64_max()));
+//@ fi
 //@ before #2 push_fringe_node(&mut count, &mut fringe, u, vu_dist);
                 assume(count < i32::MAX);
+//@ if main
+                // [C20.settled_once.no_item_at_max] a queued candidate is never f64::MAX (stated before the push, where the context is small)
+                assert(!feq(vu_dist, f64_max()));
+//@ fi
 //@ after #1 push_fringe_node(&mut count, &mut fringe, u, vu_dist);
                 proof {
 //@ if main
